@@ -529,6 +529,9 @@ class BaseGrammar(
             new_name: The new name of the element.
         """
 
+    def _handle_required_names_change(self) -> None:
+        """Update the data derived from the required names after they changed."""
+
     @abstractmethod
     def _check_name(self, *names: str) -> None:
         """Check that the names of elements are valid.
